@@ -262,3 +262,105 @@ func permutations(n int) [][]int {
 	}
 	return out
 }
+
+// ---------------------------------------------------------------- status_code lists
+
+// statusLists: several codes in the order WRITTEN: every order of 404/429/500,
+// descending pairs, duplicates, a longer unordered list, one code, ascending.
+var statusLists = [][]int{
+	{500, 429, 404}, {404, 200}, {429, 404, 429}, {404, 500, 429}, {503, 500, 429, 404, 502},
+	{429, 404, 500}, {429, 500, 404}, {500, 404, 429}, {404, 429, 500}, {200, 404}, {500, 429},
+	{201, 201}, {500, 500, 200}, {200},
+}
+
+// statusProbe: every code some list contains and codes no list contains
+// (below, between and above the listed ones).
+var statusProbe = []int{100, 200, 201, 404, 429, 499, 500, 502, 503, 599}
+
+// statusListSets: the first n lists, each as (flow with the list, unrestricted
+// flow on the same URL) and as (list on a/*, another list on a/b).
+func statusListSets(n int) [][]Flow {
+	out := [][]Flow{}
+	for i, l := range statusLists {
+		if i >= n {
+			break
+		}
+		other := statusLists[(i+3)%len(statusLists)]
+		out = append(out,
+			mkFlows([]string{"a/b", "a/b"}, []constraint{{name: "status-list", status: l}, {name: "none"}}),
+			mkFlows([]string{"a/*", "a/b"}, []constraint{{name: "status-list", status: l}, {name: "status-list", status: other}}),
+		)
+	}
+	return out
+}
+
+// statusTxns: per URL the request, its response with every probe status and
+// (tree level only) the request handled as a response without response object.
+func statusTxns(urls []string, noResp bool) []Txn {
+	out := []Txn{}
+	for _, u := range urls {
+		out = append(out, Txn{URL: u, Method: "GET"})
+		for _, st := range statusProbe {
+			out = append(out, Txn{Resp: true, URL: u, Method: "GET", Status: st})
+		}
+		if noResp {
+			out = append(out, Txn{Resp: true, NoResp: true, URL: u, Method: "GET"})
+		}
+	}
+	return out
+}
+
+// ---------------------------------------------------------------- letter case
+
+// letterCaseBase: pattern sets with upper-case letters in host labels and in
+// literal path segments; two flows that differ only in letter case.
+var letterCaseBase = [][]string{
+	{"a/B/{p}", "a/b/{p}"},
+	{"A.b/c", "a.b/c"},
+	{"a/B"},
+	{"Api.X.com/v2/Users/{userId}", "api.x.com/v2/users/{userId}"},
+	{"a/Bc/*", "a/bc/*"},
+	{"a.B/x", "a.b/x", "a.{p}/x"},
+	{"A/b"},
+	{"a/B", "a/b", "a/{p}"},
+	{"a/sObjects/Account/*"},
+	{"A.B/C/D"},
+	{"a/{p}/B", "a/{p}/b"},
+	{"a/B/*", "a/b"},
+}
+
+func letterCaseSets(n int) [][]string {
+	if n > len(letterCaseBase) {
+		n = len(letterCaseBase)
+	}
+	return letterCaseBase[:n]
+}
+
+// letterCaseURLs: the URL shapes aimed at the patterns, each in the spelling of
+// the pattern, all lower case, all upper case and with the case of the LAST
+// letter switched (one segment differs).
+func letterCaseURLs(pats []string) []string {
+	set := map[string]bool{}
+	for _, u := range urlsFor(pats, 1) {
+		set[u] = true
+		set[strings.ToLower(u)] = true
+		set[strings.ToUpper(u)] = true
+		for i := len(u) - 1; i >= 0; i-- {
+			ch := u[i]
+			if ch >= 'a' && ch <= 'z' {
+				set[u[:i]+string(ch-32)+u[i+1:]] = true
+				break
+			}
+			if ch >= 'A' && ch <= 'Z' {
+				set[u[:i]+string(ch+32)+u[i+1:]] = true
+				break
+			}
+		}
+	}
+	out := []string{}
+	for u := range set {
+		out = append(out, u)
+	}
+	sort.Strings(out)
+	return out
+}
